@@ -511,10 +511,66 @@ def inline_unknown_helpers(mod: 'Module', pinned: dict) -> bool:
     prefix = mod.name + ':'
     if not any(k.startswith(prefix) for k in pinned):
         return False
-    changed = inline_helpers(mod.tree, mod.defs, lambda qual, node: prefix + qual not in pinned)
+    unknown = {node.name for qual, node in mod.defs.items() if isinstance(node, FUNC) and prefix + qual not in pinned and len([st for st in node.body if not (isinstance(st, ast.Expr) and isinstance(st.value, ast.Constant))]) > 1}
+    unfolded = _unfold_helper_comprehensions(mod.tree, unknown) if unknown else False
+    if unfolded:
+        ast.fix_missing_locations(mod.tree)
+        set_parents(mod.tree)
+    changed = inline_helpers(mod.tree, mod.defs, lambda qual, node: prefix + qual not in pinned) or unfolded
     if changed:
         ast.fix_missing_locations(mod.tree)
         set_parents(mod.tree)
+    return changed
+
+
+def _unfold_helper_comprehensions(tree: ast.AST, helpers: set) -> bool:
+    """``return tuple(h(..x..) for x in it)`` / ``v = [h(..x..) for x in it]`` with a new multi-statement helper ``h`` in the
+    element: written as the accumulating loop it abbreviates (``acc = []; for x in it: acc.append(h(..x..))``), so that the
+    helper can be spliced back as statements.  ``tuple``/``list`` consume the generator at once and in order; the loop
+    variable must not occur elsewhere in the function (a comprehension has a scope of its own)."""
+    changed = False
+    count = 0
+    for fn in [n for n in ast.walk(tree) if isinstance(n, FUNC)]:
+        for seq in [getattr(b, f) for b in ast.walk(fn) for f in ('body', 'orelse', 'finalbody') if isinstance(getattr(b, f, None), list)]:
+            k = 0
+            while k < len(seq):
+                st = seq[k]
+                k += 1
+                if not (isinstance(st, (ast.Return, ast.Assign)) and st.value is not None) or _caller_of(st) is not fn:
+                    continue
+                val = st.value
+                comp, wrap = None, None
+                if isinstance(val, ast.ListComp):
+                    comp = val
+                elif isinstance(val, ast.Call) and isinstance(val.func, ast.Name) and val.func.id in ('tuple', 'list') and len(val.args) == 1 and not val.keywords and isinstance(val.args[0], (ast.GeneratorExp, ast.ListComp)):
+                    comp, wrap = val.args[0], val.func.id
+                if comp is None or len(comp.generators) != 1 or comp.generators[0].is_async:
+                    continue
+                gen = comp.generators[0]
+                calls = [c for c in ast.walk(comp.elt) if isinstance(c, ast.Call) and ((isinstance(c.func, ast.Name) and c.func.id in helpers) or (isinstance(c.func, ast.Attribute) and c.func.attr in helpers))]
+                if not calls or any(isinstance(x, (ast.Lambda, ast.GeneratorExp, ast.ListComp, ast.SetComp, ast.DictComp, ast.NamedExpr, ast.Yield, ast.YieldFrom, ast.Await)) for x in ast.walk(comp.elt)):
+                    continue
+                targets = {x.id for x in ast.walk(gen.target) if isinstance(x, ast.Name)}
+                inside = {id(x) for x in ast.walk(comp)}
+                if any(isinstance(x, ast.Name) and x.id in targets and id(x) not in inside for x in ast.walk(fn)) or targets & _fn_params(fn):
+                    continue
+                count += 1
+                acc = f'acc__u{count}'
+                push: ast.stmt = ast.Expr(value=ast.Call(func=ast.Attribute(value=ast.Name(id=acc, ctx=ast.Load()), attr='append', ctx=ast.Load()), args=[comp.elt], keywords=[]))
+                for cond in reversed(gen.ifs):
+                    push = ast.If(test=cond, body=[push], orelse=[])
+                loop = ast.For(target=gen.target, iter=gen.iter, body=[push], orelse=[], lineno=st.lineno, col_offset=st.col_offset)
+                for x in ast.walk(gen.target):
+                    if isinstance(x, ast.Name):
+                        x.ctx = ast.Store()
+                init = ast.Assign(targets=[ast.Name(id=acc, ctx=ast.Store())], value=ast.List(elts=[], ctx=ast.Load()), lineno=st.lineno, col_offset=st.col_offset)
+                result: ast.expr = ast.Name(id=acc, ctx=ast.Load())
+                if wrap == 'tuple':
+                    result = ast.Call(func=ast.Name(id='tuple', ctx=ast.Load()), args=[result], keywords=[])
+                st.value = result
+                seq[k - 1:k - 1] = [init, loop]
+                k += 2
+                changed = True
     return changed
 
 
